@@ -109,6 +109,24 @@ def run_case(c):
         except Exception as ex:
             ev["raised"] = True; ev["exc"] = repr(ex)[:200]
             evs.append(ev)
+        # tuple forms of the sample count with a single-sample axis: (n, 1), (1, n) and the one-dimensional (1,): every axis is the
+        # one-dimensional distribution of ITS OWN count (one sample sits at the center)
+        for counts, dim in (((c["n"], 1), 2), ((1, c["n"]), 2), ((1,), 1)):
+            try:
+                cen, s, L = F(c["c"]), F(c["sigma"]), F(c["limit"])
+                g = D.gaussian(s, counts, dimension=dim, center=cen, sampling_limit=L, normalize=c["normalize"])
+                dists = g.distributions if hasattr(g, "distributions") else [g]
+                for n_axis, d in zip(counts, dists):
+                    v, w = np.asarray(d.values, float), np.asarray(d.weights, float)
+                    ref = np.exp(-0.5 * (v - cen) ** 2 / s ** 2)
+                    nrm = float((w ** 2).sum()) if c["normalize"] == "intensity" else float(w.sum())
+                    evs.append({"k": "gaussian", "case": dict(c, counts=list(counts)), "dim": dim, "raised": False, "c": c["c"], "sigma": c["sigma"], "limit": c["limit"],
+                                "n": int(n_axis), "vals": rl(v), "profile_ppb": ppb(float(np.max(np.abs(w / w.max() - ref / ref.max())))) if len(w) else 0,
+                                "norm_ppb": ppb(abs(nrm - 1.0))})
+                    ok = ok and allexact(v)
+            except Exception as ex:
+                evs.append({"k": "gaussian", "case": dict(c, counts=list(counts)), "dim": dim, "raised": True, "exc": repr(ex)[:200], "c": c["c"], "sigma": c["sigma"],
+                            "limit": c["limit"], "n": 1, "vals": [], "profile_ppb": 0, "norm_ppb": 0})
         # an existing distribution is not changed by what is created afterwards (same sample count and limit, the other normalisation)
         ev = {"k": "stable", "case": c, "raised": False, "changed_ppb": 0}
         try:
